@@ -24,8 +24,10 @@
 (*         `bad` (invariant Ok).                                           *)
 (*   conc  operations issued by several goroutines (events `call`, `ret`   *)
 (*         in real-time order).  PLin is a silent step that linearises a   *)
-(*         pending operation; TLC searches all linearisations consistent   *)
-(*         with the call/return intervals.  A violation shows as an event  *)
+(*         pending map-changing operation; TLC searches all orders of them *)
+(*         consistent with the call/return intervals, a read must answer   *)
+(*         what the map held at some moment of its interval (= all         *)
+(*         linearisations).  A violation shows as an event                 *)
 (*         with no enabled step on any path (nothing is latched: a wrong   *)
 (*         guess of the order is not a violation).                         *)
 (*                                                                         *)
@@ -176,16 +178,27 @@ PRawIdx(valid, ent, files) ==
 
 ----------------------------------------------------------------------------
 (* conc mode: call / linearise / return *)
+(* Only operations that change the map are linearised by a step of their own (PLin).  A read  *)
+(* does not change the map, so it can be placed anywhere in its interval independently of the   *)
+(* other reads: it is explained iff its answer is one the map gave at some moment between its   *)
+(* call and its return, relative to the one order of the PLin steps of the path.  The monitor   *)
+(* therefore collects, per read in flight, the answers seen so far (seen / seenL) instead of    *)
+(* guessing a linearisation point for it - the same acceptance, far fewer paths.                *)
 
 WeakList(k) == k = "list" /\ cf.alist = 0
 \* a read of tag t may see the placeholder while a non-atomic delete of t is in flight
 DelInFlight(t) == cf.adel = 0 /\ \E j \in DOMAIN pend : pend[j].k = "tagdel" /\ pend[j].t = t
+\* answer of the map (tg, ms, ab) to head / get of a reference; "any" for an ambiguous tag
+AnsIn(tg, ms, ab, ref) == IF ref \in Tags /\ ab[ref] # {} THEN "any" ELSE MResolve(tg, ms, ref)
+RefOfOp(o) == IF o.t # "" THEN o.t ELSE o.m
 
 PCall(id, k, t, m) ==
   /\ cf.mode = "conc"
   /\ id \notin DOMAIN pend
   /\ LET rec == [k |-> k, t |-> t, m |-> m, st |-> "called", exp |-> "",
                  must |-> Listed, may |-> Listed,
+                 seen |-> IF k \in {"head", "get"} THEN {AnsIn(tags, mans, amb, IF t # "" THEN t ELSE m)} ELSE {},
+                 seenL |-> IF k = "list" THEN {Listed} ELSE {},
                  len |-> k \in {"head", "get"} /\ t # "" /\ DelInFlight(t)]
          \* a non-atomic tag delete that starts now makes the reads of that tag in flight lenient
          p1 == IF k = "tagdel" /\ cf.adel = 0
@@ -195,45 +208,41 @@ PCall(id, k, t, m) ==
      pend' = Put(p1, id, rec)
   /\ UNCHANGED <<tags, mans, amb, cf, bad>>
 
-\* silent: operation id takes effect now
+\* silent: the map-changing operation id takes effect now
 PLin(id) ==
   /\ id \in DOMAIN pend
   /\ pend[id].st = "called"
-  /\ ~WeakList(pend[id].k)
-  /\ LET o == pend[id] IN
-     IF o.k \in MutKinds
-     THEN LET nt == MTags(tags, o.k, o.t, o.m)
-              unsure == o.k = "tagdel" /\ o.t \in Amb
-              ex == IF MPresent(tags, mans, o.k, o.t, o.m) /\ ~unsure THEN "ok" ELSE "any" IN
-          /\ tags' = nt
-          /\ mans' = MMans(mans, o.k, o.m)
-          /\ amb' = IF o.k \in {"push", "tagdel"} THEN [amb EXCEPT ![o.t] = {}] ELSE amb
-          \* every listing in flight that is served page by page has now seen two tag sets
-          /\ pend' = [j \in DOMAIN pend |->
-                        IF j = id THEN [o EXCEPT !.st = "lin", !.exp = ex]
-                        ELSE IF WeakList(pend[j].k)
-                             THEN [pend[j] EXCEPT !.must = @ \cap MListed(nt), !.may = @ \cup MListed(nt)]
-                             ELSE pend[j]]
-     ELSE /\ UNCHANGED <<tags, mans, amb>>
-          /\ pend' = [pend EXCEPT ![id] =
-                        IF o.k = "list" THEN [o EXCEPT !.st = "lin", !.must = Listed, !.may = Listed]
-                        ELSE LET ref == IF o.t # "" THEN o.t ELSE o.m IN
-                             [o EXCEPT !.st = "lin",
-                                       !.exp = IF ref \in Amb THEN "any" ELSE MResolve(tags, mans, ref)]]
+  /\ pend[id].k \in MutKinds
+  /\ LET o == pend[id]
+         nt == MTags(tags, o.k, o.t, o.m)
+         nm == MMans(mans, o.k, o.m)
+         na == IF o.k \in {"push", "tagdel"} THEN [amb EXCEPT ![o.t] = {}] ELSE amb
+         unsure == o.k = "tagdel" /\ o.t \in Amb
+         ex == IF MPresent(tags, mans, o.k, o.t, o.m) /\ ~unsure THEN "ok" ELSE "any" IN
+     /\ tags' = nt /\ mans' = nm /\ amb' = na
+     \* every read in flight has now seen one more state of the map
+     /\ pend' = [j \in DOMAIN pend |->
+                   IF j = id THEN [o EXCEPT !.st = "lin", !.exp = ex]
+                   ELSE IF pend[j].k \in {"head", "get"}
+                        THEN [pend[j] EXCEPT !.seen = @ \cup {AnsIn(nt, nm, na, RefOfOp(pend[j]))}]
+                   ELSE IF pend[j].k = "list"
+                        THEN [pend[j] EXCEPT !.must = @ \cap MListed(nt), !.may = @ \cup MListed(nt),
+                                             !.seenL = @ \cup {MListed(nt)}]
+                   ELSE pend[j]]
   /\ UNCHANGED <<cf, bad>>
 
 PRet(id, res, lst) ==
   /\ cf.mode = "conc"
   /\ id \in DOMAIN pend
   /\ LET o == pend[id] IN
-     /\ WeakList(o.k) \/ o.st = "lin"
-     /\ IF o.k \in MutKinds THEN res = "ok" \/ (res = "refused" /\ o.exp = "any")
-        ELSE IF o.k = "list"
-             THEN LET S == ToSet(lst) IN
-                  /\ Len(lst) = Cardinality(S)
-                  /\ (o.must \ Amb) \subseteq S
-                  /\ (S \ Amb) \subseteq o.may
-             ELSE res = o.exp \/ o.exp = "any" \/ (o.len /\ res = "x")
+     IF o.k \in MutKinds THEN o.st = "lin" /\ (res = "ok" \/ (res = "refused" /\ o.exp = "any"))
+     ELSE IF o.k = "list"
+          THEN LET S == ToSet(lst) IN
+               /\ Len(lst) = Cardinality(S)
+               /\ IF WeakList(o.k)
+                  THEN (o.must \ Amb) \subseteq S /\ (S \ Amb) \subseteq o.may
+                  ELSE \E L \in o.seenL : L \ Amb = S \ Amb
+          ELSE res \in o.seen \/ "any" \in o.seen \/ (o.len /\ res = "x")
   /\ pend' = Del(pend, id)
   /\ UNCHANGED <<tags, mans, amb, cf, bad>>
 
